@@ -10,7 +10,6 @@ import (
 	"runtime"
 	"runtime/debug"
 	"strings"
-	"sync/atomic"
 	"testing"
 	"testing/synctest"
 	"time"
@@ -82,24 +81,11 @@ type Record struct {
 	Steps    int           `json:"steps,omitempty"`
 }
 
-var heartbeat atomic.Int64 // unix nanos (real) of the start of the current run; 0 = idle
 
-func init() {
-	// real-time watchdog (outside any bubble)
-	go func() {
-		for {
-			time.Sleep(500 * time.Millisecond)
-			hb := heartbeat.Load()
-			if hb != 0 && time.Now().UnixNano()-hb > int64(30*time.Second) {
-				fmt.Fprintf(os.Stderr, "WATCHDOG: run exceeded 30s wall; dumping stacks\n")
-				buf := make([]byte, 1<<22)
-				n := runtime.Stack(buf, true)
-				os.Stderr.Write(buf[:n])
-				os.Exit(3)
-			}
-		}
-	}()
-}
+// No in-process watchdog: a goroutine that wakes up on REAL time takes the P's runnext slot when it
+// becomes runnable and thereby reorders the simulated goroutines (measured: ~8% of C02 runs diverged).
+// The orchestrator watches the worker's output file instead and sends SIGQUIT (stack dump) when a
+// run makes no progress.
 
 // RunSeed derives the per-run seed.
 func RunSeed(seed uint64, property string, idx int) uint64 {
@@ -160,8 +146,6 @@ func Main(t *testing.T, props []*Prop) {
 	defer debug.SetGCPercent(100)
 
 	exec := func(sc *gen.Scenario, trace bool) *Outcome {
-		heartbeat.Store(time.Now().UnixNano())
-		defer heartbeat.Store(0)
 		var out *Outcome
 		func() {
 			defer func() {
